@@ -171,6 +171,36 @@ pub fn merge_case(k: u8) {
     std::mem::forget(a1);
 }
 
+//@ harness: c15_merge_scalars tier=quick timeout=600 kind=main mem=8
+//@ encodes: op::array::merge
+//@ bound: merge(x, null, b) with scalars only (i64 x, Bool b symbolic): every non-array operand - null included - is kept as exactly one element, in order
+#[cfg_attr(kani, kani::proof)]
+#[cfg_attr(kani, kani::unwind(6))]
+#[cfg_attr(kani, kani::stub(std::fmt::format, stub_format))]
+#[cfg_attr(kani, kani::stub(<serde_json::Value as std::clone::Clone>::clone, value_clone_model))]
+#[cfg_attr(verif_replay, test)]
+pub fn c15_merge_scalars() {
+    let x = in_i64::<1>();
+    let b = in_bool::<2>();
+    let v0 = Value::Number(Number::from(x));
+    let v1 = Value::Null;
+    let v2 = Value::Bool(b);
+    let r = array::merge(&vec![&v0, &v1, &v2]);
+    vshow!("merge({}, null, {}) = {:?}", x, b, r);
+    match &r {
+        Ok(Value::Array(out)) => {
+            assert!(out.len() == 3, "C15: merge dropped or duplicated a non-array operand");
+            assert!(match &out[0] { Value::Number(n) => n.as_i64() == Some(x), _ => false }, "C15: merge order");
+            assert!(matches!(out[1], Value::Null), "C15: a null operand must be kept as one element");
+            assert!(match &out[2] { Value::Bool(y) => *y == b, _ => false }, "C15: merge order");
+        }
+        _ => assert!(false, "C15: merge did not return an array"),
+    }
+    let r1 = array::merge(&vec![&v1]);
+    assert!(match &r1 { Ok(Value::Array(o)) => o.len() == 1, _ => false }, "C15: merge(null) must be [null]");
+    std::mem::forget((r, r1));
+}
+
 //@ harness: c15_merge_nested tier=thorough timeout=2400 kind=main mem=24
 //@ encodes: op::array::merge
 //@ bound: merge([[x]], y): exactly one level is flattened - the inner array [x] stays one element
